@@ -262,25 +262,25 @@ prop('C15',
 
 # rules added after the second (unseen) batch of seeded changes and the behaviour-preserving twins (DESIGN 9.7)
 ADDED = {
-  'C18': "Also: every origin of the reused slot index was selected under a free test of that slot (reaching definitions followed through copies); the allocator refuses a buffer only after the free-slot scan. Third batch: a flow-mod that names a buffer always reaches the use routine; packet-in data length by evaluation over eight scenarios; a free-slot scan starting at remembered state needs every release to move it back.",
-  'C13': "Also: the error's xid is decided by evaluation (ofp.xid=4242 -> sent xid 4242); aggregate / description handlers never answer with a list body; the connection's send() writes to the IO worker on every path (no deferred encoding); methods called eagerly on the request object are followed through the codec and pox.lib.util for definite bytes/str type errors. Third batch: helpers that take the request receive the caller's request (xid of error replies).",
-  'C04': "Argument agreement is decided by evaluating the effective arguments (explicit or callee default) along every path; also: the overlap scan stops early only on the sort key (effective_priority); SEND_FLOW_REM/EMERG handling decided for all four flag combinations; expiry lists as loops or comprehensions. Third batch: no attribute of an entry is a construction-time copy of a replaceable one (stale derived state); the unknown-command path is decided by reachability of further calls.",
-  'C11': "Also: flow_mod.pack is evaluated under four scenarios (own buffer id, none, buffered / unbuffered packet-in data) for the value in the buffer-id slot and the extra packet-out; the packet-in handed to the controller is truncated only when buffered (rule shared with C18). Third batch: is_complete for a buffered truncated packet-in, fed into packet_out.data and flow_mod.pack, still lets the buffer id through; isBridgeFiltered evaluated on sample addresses.",
-  'C15': "Also: what parse() extracts from a bit-field word fits back into the word hdr() assembles (sample-domain evaluation); reads that no dominating test - here or at any call site - relates to the buffer's length are violations, other unprovable reads are undecided; ord() of a bytes element, literal %-format arity, the IPv6 available-length clamp and own __str__ methods formatting possibly-None fields. Third batch (E1-E8, pxa/checks/c15b.py): own __str__ neither asserts on nor indexes tables with wire fields; parser/serialiser tuple arity; attributes hdr() reads exist after an early return of parse(); no checksum assert on wire words in hdr(); self-nesting headers contain RecursionError; TLV value slices; TCP options end inside the header; remaining-length accounting in header chains; element reads of fixed slices; one-octet length writes.",
-  'C14': "Also: parse() and the serialiser cut the fixed header into the same items (LLDP TLV parse/pack pairs included); set_payload re-links a packet payload to its new carrier whatever it was linked to before (source of the pseudo-header). Third batch: checksum() by sample evaluation; the checksummed header copy is built with emission's switches and covers the options emitted beside the fixed fields; UDP zero sum sent as 0xffff; TLV value slices end where the declared length ends.",
-  'C03': "Also: a sort-key list used for bisecting is updated wherever the table is; the transport prerequisite sets equal the protocols from_packet extracts (1, 6, 17); lookup as loop or next(generator, None); effective_priority decided by evaluating both branches. Third batch: every origin of the looked-up match is from_packet() of this call (no value kept between lookups).",
-  'C09': "Also: a draining replay loop must pop from the head (arrival order); _connect stores the connection on every path.",
-  'C06': "Also: an expired waiter's descriptors are not also handed to select(); a relative timer is anchored when started, not when constructed; re-run of a task after its blocking operation decided by evaluating each possible result. Third batch: sys.exc_info() is not deferred into a closure that runs after the handler; Select keeps its timeout argument (evaluated).",
+  'C18': "Also: every origin of the reused slot index was selected under a free test of that slot (reaching definitions followed through copies); the allocator refuses a buffer only after the free-slot scan. Third batch: a flow-mod that names a buffer always reaches the use routine; packet-in data length by evaluation over eight scenarios; a free-slot scan starting at remembered state needs every release to move it back. Fourth batch: allocator and use-and-free evaluated on sample pools; set-config stores the miss length it was given.",
+  'C13': "Also: the error's xid is decided by evaluation (ofp.xid=4242 -> sent xid 4242); aggregate / description handlers never answer with a list body; the connection's send() writes to the IO worker on every path (no deferred encoding); methods called eagerly on the request object are followed through the codec and pox.lib.util for definite bytes/str type errors. Third batch: helpers that take the request receive the caller's request (xid of error replies). Fourth batch: replacing an entry in a full table draws no error; error codes carried in locals are judged by their origins.",
+  'C04': "Argument agreement is decided by evaluating the effective arguments (explicit or callee default) along every path; also: the overlap scan stops early only on the sort key (effective_priority); SEND_FLOW_REM/EMERG handling decided for all four flag combinations; expiry lists as loops or comprehensions. Third batch: no attribute of an entry is a construction-time copy of a replaceable one (stale derived state); the unknown-command path is decided by reachability of further calls. Fourth batch: the expiry sweep evaluated on a sample table; the table-full test follows the removal of the identical entry.",
+  'C11': "Also: flow_mod.pack is evaluated under four scenarios (own buffer id, none, buffered / unbuffered packet-in data) for the value in the buffer-id slot and the extra packet-out; the packet-in handed to the controller is truncated only when buffered (rule shared with C18). Third batch: is_complete for a buffered truncated packet-in, fed into packet_out.data and flow_mod.pack, still lets the buffer id through; isBridgeFiltered evaluated on sample addresses. Fourth batch: the buffer allocator evaluated on sample pools (a full pool yields None).",
+  'C15': "Also: what parse() extracts from a bit-field word fits back into the word hdr() assembles (sample-domain evaluation); reads that no dominating test - here or at any call site - relates to the buffer's length are violations, other unprovable reads are undecided; ord() of a bytes element, literal %-format arity, the IPv6 available-length clamp and own __str__ methods formatting possibly-None fields. Third batch (E1-E8, pxa/checks/c15b.py): own __str__ neither asserts on nor indexes tables with wire fields; parser/serialiser tuple arity; attributes hdr() reads exist after an early return of parse(); no checksum assert on wire words in hdr(); self-nesting headers contain RecursionError; TLV value slices; TCP options end inside the header; remaining-length accounting in header chains; element reads of fixed slices; one-octet length writes. Fourth batch: E9 decoder-left-None fields, E10 raw MAC bytes.",
+  'C14': "Also: parse() and the serialiser cut the fixed header into the same items (LLDP TLV parse/pack pairs included); set_payload re-links a packet payload to its new carrier whatever it was linked to before (source of the pseudo-header). Third batch: checksum() by sample evaluation; the checksummed header copy is built with emission's switches and covers the options emitted beside the fixed fields; UDP zero sum sent as 0xffff; TLV value slices end where the declared length ends. Fourth batch: LLDP TLV header readers evaluated on a 300-byte value; unparsed next-layer objects are replaced by their bytes; serialisers of nested structures free of definite type conflicts; cursor advance names the field just read.",
+  'C03': "Also: a sort-key list used for bisecting is updated wherever the table is; the transport prerequisite sets equal the protocols from_packet extracts (1, 6, 17); lookup as loop or next(generator, None); effective_priority decided by evaluating both branches. Third batch: every origin of the looked-up match is from_packet() of this call (no value kept between lookups). Fourth batch: add_entry and entry_for_packet evaluated on sample tables; the vlan parser is registered for 0x8100 only.",
+  'C09': "Also: a draining replay loop must pop from the head (arrival order); _connect stores the connection on every path. Fourth batch: read() fetches the handler table per message; registry rules by value.",
+  'C06': "Also: an expired waiter's descriptors are not also handed to select(); a relative timer is anchored when started, not when constructed; re-run of a task after its blocking operation decided by evaluating each possible result. Third batch: sys.exc_info() is not deferred into a closure that runs after the handler; Select keeps its timeout argument (evaluated). Fourth batch: a handler-set flag is reset every iteration; epoll modify_table evaluated.",
   'C10': "Also: no swallowing frame lies between the receive handler and the catch-all that closes the worker; `while True` loops are driven by the tests guarding their breaks. Third batch: removals from the loop's worker set tolerate one another; every consume of a declared length is dominated by the arrival test and the receive buffer keeps its underrun test.",
-  'C02': "Also: after a handler exception the loop goes on with the next message (error handler summarised per constant reason); the decoder may be fetched into a local first (provenance from the unpacker table). Third batch: the value read() returns when nothing complete is buffered does not make a caller close the connection (D8); the type-indexed decoder table evaluated on a sample registry.",
-  'C05': "Also: no removal hides behind a short-circuit operand; the by-name prefix length is compared symbolically (constant + n*len(prefix)). Third batch: accumulator short-circuits in every EventMixin method; the exception hook does not format the raiser's *args tuple with a fixed number of conversions.",
-  'C08': "Readiness (two named components, every subset registered) and the sweep's fixpoint (second pass iff a waiter fired) are decided by path evaluation, so loops, all()/any() and comprehension forms are alike. Third batch: nothing with an escaping explicit raise precedes raiseEvent(UpEvent()) in stage 2; core.<name> returns a registered component whatever its truth value.",
-  'C12': "Emission, receive, fragment and rewrite rules use structural matchers and constant propagation (port looked up by `in` or .get(), STP-ness by the comparison with _STP_MAC, selected NO_RECV bit through a local); rewrite targets are followed to their origins; the port-mod mask rule is three-valued. Third batch: checksum() interpreted on samples against an RFC 1071 reference; the loop over a port-mod's mask bits has no early exit.",
-  'C17': "Aggregation is decided by evaluation on sample parts ([a,b]+[c] -> [a,b,c]); reassembly handler reachability with constant propagation. Third batch: lookup of a masked port by number and by name evaluated; keys() evaluated on a sample collection.",
-  'C19': "Writer format (dpid 0x1a2b3c -> b'dpid:1a2b3c'), flood bit for each (in tree, edge port) and the links selected for a lost switch (sample adjacency) are decided by evaluation; LinkEvent(added) may be guarded by a flag computed before the insert. Third batch: host-facing ports are answered from the adjacency (or state kept in step with it); _prev[dpid] is forgotten in a connection-up/down handler; TLV type tests and the reverse-link test are recognised structurally.",
-  'C20': "The byte count of the direct write is identified structurally (target of the send call), buffer state by value. Third batch: an in-place head cut of the send buffer is accepted when its count can only be what the socket reported for that buffer.",
-  'C01': "Also: a sub-object packed with omittable=True must not be counted by the length function; _wire_wildcards gating decided by evaluation per ethertype; pack() assembled from a list of pieces joined at the end is understood. Third batch: byte counts derived from `length`/`avail` contain buffer positions only as differences (R-UNITS); zero-padded strings use one total single-byte codec on both sides.",
-  'C07': "The dequeued function may be element 0 of the popped item or the first name of a tuple-unpacking pop. Third batch: ping() writes whatever the pinger's own state; synchronized() hands out a fresh or thread-local synchroniser.",
+  'C02': "Also: after a handler exception the loop goes on with the next message (error handler summarised per constant reason); the decoder may be fetched into a local first (provenance from the unpacker table). Third batch: the value read() returns when nothing complete is buffered does not make a caller close the connection (D8); the type-indexed decoder table evaluated on a sample registry. Fourth batch: a repeated recv() tolerates EAGAIN.",
+  'C05': "Also: no removal hides behind a short-circuit operand; the by-name prefix length is compared symbolically (constant + n*len(prefix)). Third batch: accumulator short-circuits in every EventMixin method; the exception hook does not format the raiser's *args tuple with a fixed number of conversions. Fourth batch: any(<generator>) over table-changing calls; key deletion vs unguarded lookups by type; sort trigger by evaluation.",
+  'C08': "Readiness (two named components, every subset registered) and the sweep's fixpoint (second pass iff a waiter fired) are decided by path evaluation, so loops, all()/any() and comprehension forms are alike. Third batch: nothing with an escaping explicit raise precedes raiseEvent(UpEvent()) in stage 2; core.<name> returns a registered component whatever its truth value. Fourth batch: deferral tokens originate from object(); hasComponent is registry membership (evaluated).",
+  'C12': "Emission, receive, fragment and rewrite rules use structural matchers and constant propagation (port looked up by `in` or .get(), STP-ness by the comparison with _STP_MAC, selected NO_RECV bit through a local); rewrite targets are followed to their origins; the port-mod mask rule is three-valued. Third batch: checksum() interpreted on samples against an RFC 1071 reference; the loop over a port-mod's mask bits has no early exit. Fourth batch: len(packet) is len(pack()).",
+  'C17': "Aggregation is decided by evaluation on sample parts ([a,b]+[c] -> [a,b,c]); reassembly handler reachability with constant propagation. Third batch: lookup of a masked port by number and by name evaluated; keys() evaluated on a sample collection. Fourth batch: reassembly and handler argument by value; the port-status buffer starts at the features reply; no shared class-level mutable state.",
+  'C19': "Writer format (dpid 0x1a2b3c -> b'dpid:1a2b3c'), flood bit for each (in tree, edge port) and the links selected for a lost switch (sample adjacency) are decided by evaluation; LinkEvent(added) may be guarded by a flag computed before the insert. Third batch: host-facing ports are answered from the adjacency (or state kept in step with it); _prev[dpid] is forgotten in a connection-up/down handler; TLV type tests and the reverse-link test are recognised structurally. Fourth batch: constructor sets what a property depends on before reading the property.",
+  'C20': "The byte count of the direct write is identified structurally (target of the send call), buffer state by value. Third batch: an in-place head cut of the send buffer is accepted when its count can only be what the socket reported for that buffer. Fourth batch: the disconnect state table (a loss first noticed with the event deferred is announced by the later close).",
+  'C01': "Also: a sub-object packed with omittable=True must not be counted by the length function; _wire_wildcards gating decided by evaluation per ethertype; pack() assembled from a list of pieces joined at the end is understood. Third batch: byte counts derived from `length`/`avail` contain buffer positions only as differences (R-UNITS); zero-padded strings use one total single-byte codec on both sides. Fourth batch: _packzs on samples; no message-level omittable=True; pack cache holds unconsumed input bytes; pack gating by evaluation of the struct.pack arguments.",
+  'C07': "The dequeued function may be element 0 of the popped item or the first name of a tuple-unpacking pop. Third batch: ping() writes whatever the pinger's own state; synchronized() hands out a fresh or thread-local synchroniser. Fourth batch: pong reads once; creation of the call-later task under the lock after a None test made under the lock.",
 }
 for _k, _v in ADDED.items():
   if _k in P: P[_k]['text'] = P[_k]['text'] + " " + _v
